@@ -630,7 +630,14 @@ def run(cfg, ops=None, rng=None):
                     except StopIteration:
                         del cursors[c]
                         lines = collected.pop(c)
-                        h.update(repr((step, c, lines)).encode())
+                        if not cfg["namef"] and cfg["kind"] in ("udot", "mermaid") and cfg.get("forget"):
+                            # default identifiers are looked up by id(node): after a node was dropped and freed, a new
+                            # node may or may not get its address - and with it its old identifier - depending on the
+                            # state of the allocator.  Both outcomes are legal (the judge binds identifiers afresh),
+                            # so the replay digest must not depend on them.
+                            h.update(repr((step, c, len(lines), lines[:1])).encode())
+                        else:
+                            h.update(repr((step, c, lines)).encode())
                         res.sigs.add(stable_hash((cfg["kind"], shape_of(session_snap, live), cfg["ml"], cfg["fset"] is not None, cfg["sset"] is not None,
                                                   cfg["namef"], cfg["attrf"], cfg["eattrf"], len(lines) > 3, base_cls, any(t is not None for t in targets))))
                         judge.judge(step, lines, session_snap, session_names, res)
